@@ -99,7 +99,13 @@ def run(pid, level, a, note):
             hit = False
             for k in r.known:
                 if report.key_matches(k['key'], key):
-                    r.known_hits.append((k, key, x.get('why') or x.get('diff_path')))
+                    fps = k.get('fingerprints')
+                    fk = '%s|%s|%s' % (x['op'], x['ty'], vkey(x.get('var') or {}))
+                    if fps is not None and x.get('fp') not in (fps.get(fk) or []):
+                        r.violations.append((key, 'fails differently from the recorded finding "%s": got %s, expected %s' % (
+                            k['key'], x.get('diff_got') or x.get('why'), x.get('diff_want')), x))
+                    else:
+                        r.known_hits.append((k, key, x.get('why') or x.get('diff_path')))
                     hit = True
                     break
             if not hit:
@@ -109,6 +115,12 @@ def run(pid, level, a, note):
         missing = [k for k in floor if k not in seen_keys]
         if missing:
             r.broke('%d obligations of the frozen decided set were not generated (e.g. %s): catalogue or configuration table shrank' % (len(missing), missing[:3]))
+    if os.environ.get('VERIF_DUMP_FP'):
+        fp = {}
+        for x in res:
+            if x.get('status') == 'mismatch':
+                fp.setdefault('%s|%s|%s' % (x['op'], x['ty'], vkey(x.get('var') or {})), set()).add(x.get('fp'))
+        json.dump(dict((k, sorted(v)) for k, v in fp.items()), open(os.environ['VERIF_DUMP_FP'], 'w'), indent=0, sort_keys=True)
     if a.freeze:
         d = report.load_decided()
         d[pid] = decided_now
@@ -164,4 +176,12 @@ def c07(a):
     return run('C07', 'proof', a, 'one obligation per (bitwise/shift/rotate op, element type, configuration, literal count): shifts and rotates are specialised for every count 0..bits-1')
 
 
-REGISTRY = {'C01': c01, 'C03': c03, 'C07': c07}
+def c02(a):
+    return run('C02', 'proof', a, 'one obligation per (floating-point op, float|double, configuration): IEEE operation terms (fadd/fsub/fmul/fdiv/sqrt/fma), sign-bit re-slicing for neg/abs/copysign, x86 min/max, classification predicates; any fast-math flag on a node is reported')
+
+
+def c08(a):
+    return run('C08', 'proof', a, 'one obligation per (rounding function, float|double, configuration): the hardware rounding primitive with the right rounding-mode immediate (class P) or the reviewed conversion-based / add-subtract-2^p emulation (class I)')
+
+
+REGISTRY = {'C01': c01, 'C02': c02, 'C03': c03, 'C07': c07, 'C08': c08}
